@@ -78,7 +78,7 @@ class World:
             return bool(key % 2)
         k = spec.kind(base)
         if k == "scalar":
-            return "sc%d" % (key % 9)
+            return "sc%d" % (key % (3 if spec["types"][base].get("null_on") else 9))
         if k == "enum":
             vals = spec["types"][base]["values"]
             return vals[key % len(vals)]["value"]
@@ -462,4 +462,6 @@ def serialize(spec, n, val):
             if v["value"] == val:
                 return v["name"]
         raise AssertionError("world produced a non-member enum value")
+    if spec.kind(n) == "scalar" and spec["types"][n].get("null_on") is not None and val == spec["types"][n]["null_on"]:
+        return None   # the scalar's own serialiser yields null: completes like any other null
     return val
